@@ -19,7 +19,11 @@
 //        linear_weight_matrix(begin, end, neighbors, eigen_kernel_callback, shift, trace_shift)
 //   KLTSAW <id> <N> <D> <k> <d> <shift> <N*D doubles> <N*k neighbour indices>
 //        tangent_weight_matrix(begin, end, neighbors, eigen_kernel_callback, d, shift)
+//   HLLEW <id> <N> <D> <k> <d> <N*D doubles> <N*k neighbour indices>
+//        hessian_weight_matrix(begin, end, neighbors, eigen_kernel_callback, d)
 //        -> R <id> OK M <N> <N> ...        (the sparse matrix, printed densely)
+//   DMX <id> <N> <width> <N*N distance table>
+//        compute_diffusion_matrix(begin, end, table callback, width)  -> R <id> OK M <N> <N> ...
 // Output (every line flushed):
 //   C <id>       marker printed BEFORE the work of a command (a crash / hang belongs to it)
 //   R <id> ...   result
@@ -46,6 +50,7 @@
 #include <tapkee/utils/sparse.hpp>
 #include <tapkee/routines/laplacian_eigenmaps.hpp>
 #include <tapkee/routines/locally_linear.hpp>
+#include <tapkee/routines/diffusion_maps.hpp>
 #include <tapkee/utils/logging.hpp>
 
 using namespace tapkee;
@@ -229,7 +234,34 @@ int main()
             put_matrix(os, "proj", proj);
             puts(os.str().c_str());
         }
-        else if (cmd == "LAP" || cmd == "KLLEW" || cmd == "KLTSAW")
+        else if (cmd == "DMX")
+        {
+            int N = 0;
+            std::vector<double> v, wv;
+            if (!(ss >> N) || N <= 0 || N > 2048 || !get_doubles(ss, 1, wv) || !get_doubles(ss, (long)N * N, v))
+            {
+                printf("C %ld\nR %ld BADCASE\n", id, id);
+                continue;
+            }
+            printf("C %ld\n", id);
+            fflush(stdout);
+            alarm(20);
+            DenseMatrix T(N, N);
+            for (int i = 0; i < N; i++)
+                for (int j = 0; j < N; j++)
+                    T(i, j) = v[(size_t)i * N + j];
+            std::vector<IndexType> idx(N);
+            for (int i = 0; i < N; i++)
+                idx[i] = i;
+            table_distance_callback dcb(T);
+            DenseMatrix M = tapkee_internal::compute_diffusion_matrix(idx.begin(), idx.end(), dcb, wv[0]);
+            alarm(0);
+            std::ostringstream os;
+            os << "R " << id << " OK ";
+            put_matrix(os, "M", M);
+            puts(os.str().c_str());
+        }
+        else if (cmd == "LAP" || cmd == "KLLEW" || cmd == "KLTSAW" || cmd == "HLLEW")
         {
             int N = 0, D = 0, k = 0, d = 0;
             double width = 1, shift = 0, tshift = 0;
@@ -249,6 +281,9 @@ int main()
                     tshift = pr[1];
                 }
             }
+            else if (cmd == "HLLEW")
+                ok = bool(ss >> N >> D >> k >> d) && N > 0 && N <= 2048 && D > 0 && D <= 512 && k > 0 && k <= N &&
+                     d > 0 && 1 + d + d * (d + 1) / 2 <= k && get_doubles(ss, (long)N * D, v);
             else
             {
                 std::vector<double> pr;
@@ -302,11 +337,12 @@ int main()
                     for (int j = 0; j < D; j++)
                         X(j, i) = v[(size_t)i * D + j];
                 eigen_kernel_callback kcb(X);
-                SparseWeightMatrix W = (cmd == "KLLEW")
-                                           ? tapkee_internal::linear_weight_matrix(idx.begin(), idx.end(), nbrs, kcb,
-                                                                                   shift, tshift)
-                                           : tapkee_internal::tangent_weight_matrix(idx.begin(), idx.end(), nbrs, kcb,
-                                                                                    d, shift);
+                SparseWeightMatrix W =
+                    (cmd == "KLLEW")
+                        ? tapkee_internal::linear_weight_matrix(idx.begin(), idx.end(), nbrs, kcb, shift, tshift)
+                        : (cmd == "HLLEW"
+                               ? tapkee_internal::hessian_weight_matrix(idx.begin(), idx.end(), nbrs, kcb, d)
+                               : tapkee_internal::tangent_weight_matrix(idx.begin(), idx.end(), nbrs, kcb, d, shift));
                 DenseMatrix M = DenseMatrix(W);
                 put_matrix(os, "M", M);
             }
